@@ -1,5 +1,7 @@
-(** Slicing, part 2: the layout-level [getitem_model] computes the value-level [getitem_spec]
-    (values AND error status) for slice tuples of basic items on the fragment [gfrag]. *)
+(** Slicing, part 2: missing values.  The model treats an option node by slicing the present elements
+    and re-inserting the [None]s ([gn], option case); the specification carries the missing lists
+    along ([sg] on [None] entries).  This file has the merge algebra relating the two, the view of
+    an option node as (index, content), and the "present lists" form of one step of [sg]. *)
 From Coq Require Import ZArith List Bool Lia ZifyBool.
 From AwkV Require Import Base Layout LayoutInd Valid Types AtAxis Carry Ops_Getitem Typing Proofs_Typing
                          Proofs_Lists Proofs_ToList Proofs_Carry Proofs_CarryValid Proofs_AtAxis Proofs_AtAxisOps
@@ -8,215 +10,157 @@ Import ListNotations.
 Open Scope Z_scope.
 Ltac Zify.zify_post_hook ::= Z.to_euclidean_division_equations.
 
-(* ---------------------------------------------------------------- types up to the placement of options *)
-(* The specification keeps track of result types without recording where an option came from (the
-   values carry the [VNone]s); the model's result layouts have their option nodes.  The two agree up to
-   erasure of [TOpt]. *)
-Fixpoint er (t : ty) : ty :=
-  match t with
-  | TNum d => TNum d
-  | TUnk => TUnk
-  | TList sz str t' => TList sz str (er t')
-  | TOpt t' => er t'
-  | TRec ks ts => TRec ks (map er ts)
-  | TUnion ts => TUnion (map er ts)
+(* ---------------------------------------------------------------- merging by a list of presence flags *)
+Fixpoint bmerge {A} (d : A) (ks : list bool) (ys : list A) : list A :=
+  match ks with
+  | [] => []
+  | true :: rest => match ys with y :: ys' => y :: bmerge d rest ys' | [] => [] end
+  | false :: rest => d :: bmerge d rest ys
   end.
+Definition ntrue (ks : list bool) : nat := length (filter (fun b : bool => b) ks).
 
-Lemma er_so_ty t : er (so_ty t) = er t.
-Proof. induction t; cbn [so_ty er]; auto. Qed.
-Lemma so_ty_nonopt t u : so_ty t <> TOpt u.
-Proof. induction t; cbn [so_ty]; try discriminate. exact IHt. Qed.
-Lemma er_nonopt t u : er t <> TOpt u.
-Proof. induction t; cbn [er]; try discriminate. exact IHt. Qed.
+Definition keys_ix (ix : list Z) : list bool := map (fun i => 0 <=? i) ix.
+Definition keys_ls {B} (ls : list (option B)) : list bool :=
+  map (fun o : option B => match o with Some _ => true | None => false end) ls.
 
-(* what [so_ty T] looks like, read off a type with the same erasure *)
-Lemma er_view T U :
-  er T = er U ->
-  match so_ty U with
-  | TNum d => so_ty T = TNum d
-  | TUnk => so_ty T = TUnk
-  | TList sz str u => exists t, so_ty T = TList sz str t /\ er t = er u
-  | TOpt _ => False
-  | TRec ks us => exists ts, so_ty T = TRec ks ts /\ map er ts = map er us
-  | TUnion us => exists ts, so_ty T = TUnion ts /\ map er ts = map er us
-  end.
+Lemma bmerge_length {A} (d : A) ks : forall ys, length ys = ntrue ks -> length (bmerge d ks ys) = length ks.
 Proof.
-  intros H. rewrite <- (er_so_ty T), <- (er_so_ty U) in H.
-  pose proof (so_ty_nonopt T) as HT. pose proof (so_ty_nonopt U) as HU.
-  destruct (so_ty U) as [d| |sz str u|u|ks us|us]; destruct (so_ty T) as [d'| |sz' str' t|t|ks' ts|ts];
-    cbn [er] in H; try discriminate; try (exfalso; eapply HT; reflexivity); try (exfalso; eapply HU; reflexivity);
-    try (exfalso; eapply er_nonopt; (exact H || (symmetry; exact H))).
-  - inversion H. reflexivity.
-  - reflexivity.
-  - inversion H; subst. eauto.
-  - inversion H; subst. eauto.
-  - inversion H; subst. eauto.
+  unfold ntrue. induction ks as [|[|] ks IH]; intros ys H; cbn [bmerge filter length] in *; [reflexivity| |].
+  - destruct ys as [|y ys]; [discriminate|]. cbn [length] in *. rewrite IH by lia. reflexivity.
+  - rewrite IH by exact H. reflexivity.
 Qed.
 
-(* ---------------------------------------------------------------- the fragment *)
-(* 1-d numeric leaves; ListOffset / ListArray / RegularArray at any depth; IndexedArray and the option
-   encodings; parameter nodes without __array__ *)
-Fixpoint gfrag (c : content) : bool :=
-  match c with
-  | Numpy _ shape _ => match shape with [_] => true | _ => false end
-  | Empty => true
-  | ListOffset _ _ c' | ListA _ _ _ c' | Regular c' _ _ => gfrag c'
-  | _ => false
-  end.
-
-Lemma carry_gfrag c : forall ix c', carry c ix = Ok c' -> gfrag c' = gfrag c.
+Lemma mapM_bmerge {A B} (F : A -> res B) d d' ks : F d = Ok d' ->
+  forall ys, length ys = ntrue ks -> mapM F (bmerge d ks ys) = rmap (bmerge d' ks) (mapM F ys).
 Proof.
-  induction c as [dt shape data| |w o c IHc|w s e c IHc|c size zl IHc|w ix0 c IHc|w ix0 c IHc|m vw c IHc
-                 |m vw lsb n c IHc|c IHc|w t ix0 cs IHcs|cs ks n IHcs|arr rn c IHc] using content_ind';
-    intros ix c' H; cbn [carry] in H.
-  - destruct shape as [|n dims]; [discriminate|]. apply bind_Ok in H as (rows & _ & H). inversion H.
-    cbn [gfrag]. destruct dims; reflexivity.
-  - destruct ix; [|discriminate]. inversion H. reflexivity.
-  - apply bind_Ok in H as (s & _ & H). apply bind_Ok in H as (e & _ & H). inversion H. reflexivity.
-  - apply bind_Ok in H as (s' & _ & H). apply bind_Ok in H as (e' & _ & H). inversion H. reflexivity.
-  - apply bind_Ok in H as (nx & _ & H). apply bind_Ok in H as (c'' & Hc & H). inversion H.
-    cbn [gfrag]. apply (IHc _ _ Hc).
-  - apply bind_Ok in H as (j & _ & H). inversion H. reflexivity.
-  - apply bind_Ok in H as (j & _ & H). inversion H. reflexivity.
-  - apply bind_Ok in H as (m' & _ & H). apply bind_Ok in H as (c'' & Hc & H). inversion H. reflexivity.
-  - apply bind_Ok in H as (bm & _ & H). apply bind_Ok in H as (m' & _ & H).
-    apply bind_Ok in H as (c'' & Hc & H). inversion H. reflexivity.
-  - apply bind_Ok in H as (c'' & Hc & H). inversion H. reflexivity.
-  - apply bind_Ok in H as (t' & _ & H). apply bind_Ok in H as (j & _ & H). inversion H. reflexivity.
-  - destruct (forallb _ ix); [|discriminate]. apply bind_Ok in H as (cs' & _ & H). inversion H. reflexivity.
-  - apply bind_Ok in H as (c'' & Hc & H). inversion H. reflexivity.
+  intros Hd. unfold ntrue. induction ks as [|[|] ks IH]; intros ys H; cbn [bmerge filter length] in *.
+  - destruct ys; [reflexivity|discriminate].
+  - destruct ys as [|y ys]; [discriminate|]. cbn [length] in H. cbn [mapM]. rewrite IH by lia.
+    destruct (F y); cbn [bind rmap]; [|reflexivity]. destruct (mapM F ys); reflexivity.
+  - cbn [mapM]. rewrite Hd, IH by exact H. cbn [bind]. destruct (mapM F ys); reflexivity.
 Qed.
 
-(* ---------------------------------------------------------------- the refinement relation *)
-Definition R (n : Z) (m : res content) (s : res (ty * list value)) : Prop :=
-  match m with
-  | Ok c' => exists t' ws, s = Ok (t', ws) /\ er t' = er (type_of c') /\ to_list c' = Ok ws /\ zlen ws = n
-  | Err e => s = Err e
-  end.
-
-Lemma R_bind n m s (K : content -> content) (Ks : ty * list value -> ty * list value) n' :
-  R n m s ->
-  (forall c' t' ws, er t' = er (type_of c') -> to_list c' = Ok ws -> zlen ws = n ->
-     exists t'' ws', Ks (t', ws) = (t'', ws') /\ er t'' = er (type_of (K c')) /\ to_list (K c') = Ok ws' /\ zlen ws' = n') ->
-  R n' (do r <- m; Ok (K r)) (do r <- s; Ok (Ks r)).
+Lemma reinsert_bmerge ls rs : reinsert ls rs = bmerge VNone (keys_ls ls) rs.
 Proof.
-  intros H HK. destruct m as [c'|e]; cbn [R bind] in *.
-  - destruct H as (t' & ws & -> & Ht & Hl & Hz). cbn [bind].
-    destruct (HK c' t' ws Ht Hl Hz) as (t'' & ws' & -> & ? & ? & ?). exists t'', ws'. auto.
-  - rewrite H. reflexivity.
+  revert rs. induction ls as [|[l|] ls IH]; intros rs; cbn [reinsert keys_ls map bmerge]; [reflexivity| |].
+  - destruct rs as [|r rs]; [reflexivity|]. rewrite IH. reflexivity.
+  - rewrite IH. reflexivity.
 Qed.
 
-Definition basic_item (it : item) : bool := match it with IAt _ | IRange _ _ _ => true | _ => false end.
-
-Lemma se_at_list fs T xs head tail sz u ls adv :
-  positional head = true -> so_ty T = TList sz None u -> mapM as_list xs = Ok ls ->
-  se_ fs T xs (head :: tail) adv = sg fs None sz u ls (head :: tail) adv.
+Lemma ntrue_keys_ls {B} (ls : list (option B)) :
+  ntrue (keys_ls ls) = length (flat_map (fun o : option B => match o with Some l => [l] | None => [] end) ls).
 Proof.
-  intros Hp Hs Hl. rewrite se_down; [|exact Hp|unfold is_rec; rewrite Hs; reflexivity].
-  unfold list_elem_ty, str_of_ty. rewrite Hs, Hl. reflexivity.
+  unfold ntrue, keys_ls. induction ls as [|[l|] ls IH]; cbn [map filter flat_map app length]; [reflexivity| |]; rewrite IH; reflexivity.
 Qed.
-Lemma se_at_leaf fs T xs head tail adv :
-  positional head = true -> (exists d, so_ty T = TNum d) \/ so_ty T = TUnk ->
-  se_ fs T xs (head :: tail) adv = Err EValue.
+Lemma ntrue_keys_ix ix : ntrue (keys_ix ix) = length (filter (fun i => 0 <=? i) ix).
 Proof.
-  intros Hp Hs. rewrite se_down; [|exact Hp|unfold is_rec; destruct Hs as [[d ->]| ->]; reflexivity].
-  unfold list_elem_ty. destruct Hs as [[d ->]| ->]; reflexivity.
+  unfold ntrue, keys_ix. induction ix as [|i ix IH]; cbn [map filter length]; [reflexivity|].
+  destruct (0 <=? i); cbn [length]; rewrite IH; reflexivity.
 Qed.
 
-(* ---------------------------------------------------------------- one positional item at a list node *)
-Lemma gfrag_list_content c bs cc :
-  gfrag c = true -> lnode c = true -> list_bounds c = Ok (bs, cc) -> gfrag cc = true.
+(* the lists that are present in a merge *)
+Lemma present_bmerge ks : forall pl : list (list value),
+  length pl = ntrue ks -> present (bmerge None ks (map Some pl)) = pl.
 Proof.
-  intros Hfr Hn Hb. destruct c; try discriminate; cbn [list_bounds] in Hb; cbn [gfrag] in Hfr.
-  - destruct offsets; inversion Hb; subst; exact Hfr.
-  - destruct (_ <? _); inversion Hb; subst; exact Hfr.
-  - destruct (_ <? _); inversion Hb; subst; exact Hfr.
+  unfold ntrue, present. induction ks as [|[|] ks IH]; intros pl H; cbn [bmerge filter length] in *.
+  - destruct pl; [reflexivity|discriminate].
+  - destruct pl as [|l pl]; [discriminate|]. cbn [map flat_map app]. cbn [length] in H. rewrite IH by lia. reflexivity.
+  - cbn [flat_map app]. apply IH, H.
+Qed.
+Lemma keys_bmerge ks : forall pl : list (list value),
+  length pl = ntrue ks -> keys_ls (bmerge None ks (map Some pl)) = ks.
+Proof.
+  unfold ntrue, keys_ls. induction ks as [|[|] ks IH]; intros pl H; cbn [bmerge filter length] in *; [reflexivity| |].
+  - destruct pl as [|l pl]; [discriminate|]. cbn [map]. cbn [length] in H. rewrite IH by lia. reflexivity.
+  - cbn [map]. rewrite IH by exact H. reflexivity.
 Qed.
 
-Lemma lnode_view2 c T xs :
-  Valid None c -> gfrag c = true -> lnode c = true -> to_list c = Ok xs -> er T = er (type_of c) ->
-  exists bs cc vs0 ls t,
-    list_bounds c = Ok (bs, cc) /\ Valid None cc /\ gfrag cc = true /\ to_list cc = Ok vs0 /\
-    mapM (cut1 vs0) bs = Ok ls /\ xs = map VList ls /\ so_ty T = TList (rsize c) None t /\ er t = er (type_of cc).
+(* re-inserting twice *)
+Lemma bmerge_idem {A} (d : A) ks : forall rs, bmerge d ks (bmerge d (repeat true (ntrue ks)) rs) = bmerge d ks rs.
 Proof.
-  intros HV Hfr Hn Hl HT.
-  destruct (lnode_view c xs HV Hn Hl) as (bs & cc & vs0 & ls & Hb & HVc & Hl0 & Hcut & -> & Hty).
-  rewrite Hty in HT. pose proof (er_view T _ HT) as Hv. cbn [so_ty] in Hv. destruct Hv as (t & HsT & Het).
-  exists bs, cc, vs0, ls, t. repeat split; try assumption. eapply gfrag_list_content; eassumption.
+  unfold ntrue. induction ks as [|[|] ks IH]; intros rs; cbn [bmerge filter length repeat]; [reflexivity| |].
+  - destruct rs as [|r rs]; [reflexivity|]. rewrite IH. reflexivity.
+  - rewrite IH. reflexivity.
+Qed.
+Lemma keys_somes {B} (pl : list B) : keys_ls (map Some pl) = repeat true (length pl).
+Proof. unfold keys_ls. induction pl as [|l pl IH]; [reflexivity|]. cbn [map length repeat]. rewrite IH. reflexivity. Qed.
+Lemma reinsert_present ls rs : reinsert ls (reinsert (map Some (present ls)) rs) = reinsert ls rs.
+Proof.
+  rewrite !reinsert_bmerge, keys_somes. unfold present. rewrite <- ntrue_keys_ls. apply bmerge_idem.
 Qed.
 
-Lemma unopt_somes (pk : list (list value)) : map unopt (map Some pk) = pk.
-Proof. rewrite map_map. cbn [unopt]. apply map_id. Qed.
-Lemma counts_somes (pk : list (list value)) : map (fun o => zlen (unopt o)) (map Some pk) = map zlen pk.
-Proof. rewrite map_map. reflexivity. Qed.
+(* ---------------------------------------------------------------- values of an option node *)
+Definition pickv (vs : list value) (i : Z) : res value := pick_opt vs (0 <=? i) i.
 
-Section ListNode.
-  Variables (tail : list item).
-  (* the induction hypothesis for the rest of the tuple *)
-  Variable (fm fs : nat).
-  Hypothesis IH : forall c T xs,
-    Valid None c -> gfrag c = true -> to_list c = Ok xs -> er T = er (type_of c) ->
-    R (zlen xs) (gn fm c tail None) (se_ fs T xs tail None).
+Lemma pick_present vs0 ix xs :
+  mapM (pickv vs0) ix = Ok xs ->
+  exists ys, mapM (get vs0) (filter (fun i => 0 <=? i) ix) = Ok ys /\ xs = bmerge VNone (keys_ix ix) ys.
+Proof.
+  revert xs. induction ix as [|i ix IH]; intros xs H; cbn [mapM] in H.
+  - inversion H. exists []. split; reflexivity.
+  - apply bind_Ok in H as (x & Hx & H). apply bind_Ok in H as (xs' & Hxs' & H). inversion H; subst.
+    destruct (IH xs' Hxs') as (ys & Hys & ->). unfold pickv, pick_opt in Hx. cbn [filter keys_ix map bmerge].
+    destruct (0 <=? i) eqn:E.
+    + exists (x :: ys). cbn [mapM]. rewrite Hx, Hys. split; reflexivity.
+    + inversion Hx. exists ys. split; [exact Hys|reflexivity].
+Qed.
 
-  Lemma list_node_IAt c T xs i :
-    Valid None c -> gfrag c = true -> lnode c = true -> to_list c = Ok xs -> er T = er (type_of c) ->
-    R (zlen xs) (gn (S fm) c (IAt i :: tail) None) (se_ (S fs) T xs (IAt i :: tail) None).
-  Proof.
-    intros HV Hfr Hn Hl HT.
-    destruct (lnode_view2 c T xs HV Hfr Hn Hl HT) as (bs & cc & vs0 & ls & t & Hb & HVc & Hfc & Hl0 & Hcut & -> & HsT & Het).
-    rewrite (se_at_list _ _ _ (IAt i) _ _ _ _ _ eq_refl HsT (as_list_lists ls)).
-    rewrite gn_list_IAt by exact Hn. rewrite sg_IAt, Hb. cbn [bind fst snd].
-    destruct (szchk (rsize c) i) as [[]|e]; cbn [bind]; [|reflexivity].
-    rewrite present_somes. fold (at_spec i). fold (at_model i).
-    destruct (at_step vs0 bs ls i Hcut) as [Hs Hr]. rewrite Hs.
-    destruct (mapM (at_model i) bs) as [ks|e] eqn:Hks; cbn [bind]; [|reflexivity].
-    specialize (Hr ks eq_refl).
-    destruct (carry_spec cc vs0 ks HVc Hl0) as (nc & Hnc & Hlnc & Hcl); [rewrite <- (to_list_len _ _ Hl0); exact Hr|].
-    destruct (gather_ok vs0 ks Hr) as [xs' Hxs']. rewrite Hnc, Hxs'. cbn [bind]. rewrite Hxs' in Hlnc.
-    assert (HVn : Valid None nc).
-    { apply (carry_valid cc vs0 ks nc HVc Hl0); [rewrite <- (to_list_len _ _ Hl0); exact Hr|exact Hnc]. }
-    assert (Hfn : gfrag nc = true) by (rewrite (carry_gfrag _ _ _ Hnc); exact Hfc).
-    assert (Hetn : er t = er (type_of nc)) by (rewrite (carry_type_of _ _ _ Hnc); exact Het).
-    pose proof (IH nc t xs' HVn Hfn Hlnc Hetn) as HR. cbn [present_adv].
-    assert (Hlen : zlen xs' = zlen ls).
-    { rewrite (mapM_zlen _ _ _ Hxs'), (mapM_zlen _ _ _ Hks). symmetry. apply (mapM_zlen _ _ _ Hcut). }
-    rewrite zlen_map.
-    destruct (gn fm nc tail None) as [c'|e]; cbn [R] in *.
-    - destruct HR as (t' & ws & -> & Ht' & Hl' & Hz). cbn [bind fst snd].
-      rewrite reinsert_somes by (apply zlen_eq_length; lia). exists t', ws. repeat split; try assumption. lia.
-    - rewrite HR. reflexivity.
-  Qed.
+Lemma outindex_pick ix : forall pre ws n,
+  zlen pre = n -> length ws = ntrue (keys_ix ix) ->
+  mapM (pickv (pre ++ ws)) (outindex ix n) = Ok (bmerge VNone (keys_ix ix) ws).
+Proof.
+  unfold ntrue. induction ix as [|i ix IH]; intros pre ws n Hn Hl; cbn [outindex keys_ix map bmerge filter] in *; [reflexivity|].
+  pose proof (zlen_nonneg pre). destruct (0 <=? i) eqn:E; cbn [filter length] in Hl.
+  - destruct ws as [|w ws]; [discriminate|]. cbn [length] in Hl. cbn [mapM]. unfold pickv at 1, pick_opt.
+    destruct (0 <=? n) eqn:E2; [|lia]. rewrite get_app2 by lia. replace (n - zlen pre) with 0 by lia. cbn [get_cons_0 bind].
+    rewrite get_cons_0. cbn [bind].
+    replace (pre ++ w :: ws) with ((pre ++ [w]) ++ ws) by (rewrite <- app_assoc; reflexivity).
+    rewrite (IH (pre ++ [w]) ws (n + 1)); [reflexivity| |unfold keys_ix; lia]. rewrite zlen_app. cbn. lia.
+  - cbn [mapM]. unfold pickv at 1, pick_opt. cbn [Z.leb Z.compare bind]. rewrite (IH pre ws n Hn Hl). reflexivity.
+Qed.
 
-  Lemma list_node_IRange c T xs a b st :
-    Valid None c -> gfrag c = true -> lnode c = true -> to_list c = Ok xs -> er T = er (type_of c) ->
-    R (zlen xs) (gn (S fm) c (IRange a b st :: tail) None) (se_ (S fs) T xs (IRange a b st :: tail) None).
-  Proof.
-    intros HV Hfr Hn Hl HT.
-    destruct (lnode_view2 c T xs HV Hfr Hn Hl HT) as (bs & cc & vs0 & ls & t & Hb & HVc & Hfc & Hl0 & Hcut & -> & HsT & Het).
-    rewrite (se_at_list _ _ _ (IRange a b st) _ _ _ _ _ eq_refl HsT (as_list_lists ls)).
-    rewrite gn_list_IRange by exact Hn. rewrite sg_IRange, Hb. cbn [bind fst snd]. cbv zeta.
-    destruct (stepof st =? 0) eqn:Es; [reflexivity|].
-    destruct (rng_step vs0 bs ls a b (stepof st) ltac:(lia) Hcut) as (pk & Hpk & Hpick & Hrange & Hzpk).
-    rewrite Hpick. cbn [bind]. rewrite unopt_somes, counts_somes.
-    change (map (fun ab : Z * Z => map (fun j => fst ab + j) (py_indices (snd ab - fst ab) a b (stepof st))) bs)
-      with (map (rng_model a b (stepof st)) bs).
-    set (pm := map (rng_model a b (stepof st)) bs) in *.
-    destruct (carry_spec cc vs0 (concat pm) HVc Hl0) as (nc & Hnc & Hlnc & Hcl); [rewrite <- (to_list_len _ _ Hl0); exact Hrange|].
-    rewrite mapM_concat, Hpk in Hlnc. cbn [rmap] in Hlnc. rewrite Hnc. cbn [bind adv_range].
-    assert (HVn : Valid None nc).
-    { apply (carry_valid cc vs0 (concat pm) nc HVc Hl0); [rewrite <- (to_list_len _ _ Hl0); exact Hrange|exact Hnc]. }
-    assert (Hfn : gfrag nc = true) by (rewrite (carry_gfrag _ _ _ Hnc); exact Hfc).
-    assert (Hetn : er t = er (type_of nc)) by (rewrite (carry_type_of _ _ _ Hnc); exact Het).
-    pose proof (IH nc t (concat pk) HVn Hfn Hlnc Hetn) as HR.
-    rewrite (mapM_mapM_lens _ _ _ Hpk). rewrite zlen_map.
-    destruct (gn fm nc tail None) as [c'|e]; cbn [R] in *.
-    - destruct HR as (t' & ws & -> & Ht' & Hl' & Hz). cbn [bind fst snd].
-      rewrite zlen_concat in Hz.
-      rewrite regrouped_somes by (rewrite regroup_length, map_length; reflexivity).
-      exists (TList None None t'), (map VList (regroup (map zlen pk) ws)). split; [reflexivity|]. split; [|split].
-      + cbn [type_of type_of_p strflag er]. f_equal. exact Ht'.
-      + apply to_list_regroup; [exact Hl'|apply map_zlen_nonneg|exact Hz].
-      + rewrite zlen_map. unfold zlen at 1. rewrite regroup_length, map_length. fold (zlen pk). lia.
-    - rewrite HR. reflexivity.
-  Qed.
-End ListNode.
+Lemma to_list_outindex r ws ix :
+  to_list r = Ok ws -> length ws = ntrue (keys_ix ix) ->
+  to_list (IndexedOption I64 (outindex ix 0) r) = Ok (bmerge VNone (keys_ix ix) ws).
+Proof.
+  intros Hl Hn. rewrite to_list_IndexedOption, Hl. cbn [bind]. apply (outindex_pick ix [] ws 0); [reflexivity|exact Hn].
+Qed.
+
+(* an option node as (index, content) *)
+Lemma option_view c xs :
+  Valid None c -> is_opt c = true -> to_list c = Ok xs ->
+  exists ix vs0,
+    option_index c = Ok (ix, opt_content c) /\ Valid None (opt_content c) /\ optionlike (opt_content c) = false /\
+    to_list (opt_content c) = Ok vs0 /\ mapM (pickv vs0) ix = Ok xs /\ type_of c = TOpt (type_of (opt_content c)).
+Proof.
+  intros HV Ho Hl. destruct c; try discriminate; cbn [opt_content option_index type_of type_of_p].
+  - (* IndexedOption *)
+    inversion HV; subst. rewrite to_list_IndexedOption in Hl. apply bind_Ok in Hl as (vs0 & Hl0 & Hl).
+    eexists _, vs0. split; [reflexivity|]. repeat split; try assumption.
+    rewrite mapM_map. rewrite <- Hl. apply mapM_ext_in. intros i _. unfold pickv, pick_opt.
+    destruct (i <? 0) eqn:E.
+    + destruct (0 <=? i) eqn:E2; [lia|]. reflexivity.
+    + reflexivity.
+  - (* ByteMasked *)
+    inversion HV; subst. rewrite to_list_ByteMasked in Hl. apply bind_Ok in Hl as (vs0 & Hl0 & Hl).
+    eexists _, vs0. split; [reflexivity|]. repeat split; try assumption.
+    rewrite mapM_map. rewrite <- Hl. apply mapM_ext_in. intros [i b] Hin. apply zip_In in Hin as [Hin _]. apply iota_In' in Hin.
+    unfold pickv, pick_opt. destruct (Bool.eqb _ _).
+    + destruct (0 <=? i) eqn:E2; [reflexivity|lia].
+    + reflexivity.
+  - (* BitMasked *)
+    inversion HV; subst. rewrite to_list_BitMasked in Hl. apply bind_Ok in Hl as (vs0 & Hl0 & Hl).
+    destruct (len <? 0) eqn:En; [discriminate|].
+    destruct (mapM_total (fun i => do b <- bit_at mask lsb i; Ok (if Bool.eqb b valid_when then i else -1)) (iota len)) as [ix Hix].
+    { intros i Hi. destruct (mapM_Ok_In _ _ _ _ Hl Hi) as (y & Hy & _). destruct (bit_at mask lsb i); [cbn; eauto|discriminate]. }
+    rewrite Hix. cbn [bind]. exists ix, vs0. split; [reflexivity|]. repeat split; try assumption.
+    rewrite (mapM_mapM _ (pickv vs0) _ _ Hix). rewrite <- Hl. apply mapM_ext_in. intros i Hin. apply iota_In' in Hin.
+    destruct (bit_at mask lsb i) as [b|]; cbn [bind]; [|reflexivity]. unfold pickv, pick_opt. destruct (Bool.eqb _ _).
+    + destruct (0 <=? i) eqn:E2; [reflexivity|lia].
+    + reflexivity.
+  - (* Unmasked *)
+    inversion HV; subst. rewrite to_list_Unmasked in Hl.
+    exists (iota (clen c)), xs. split; [reflexivity|]. repeat split; try assumption.
+    rewrite <- (to_list_len _ _ Hl). rewrite <- (gather_all xs) at 2. apply mapM_ext_in. intros i Hin. apply iota_In' in Hin.
+    unfold pickv, pick_opt. destruct (0 <=? i) eqn:E2; [reflexivity|lia].
+Qed.
